@@ -299,6 +299,10 @@ def gen_case(rng, pid, tier):
 
     def apply_shadow(kind, cell, alloc, rsrc):
         """Shadow of the *statement* (not of the code): only to aim later requests."""
+        if kind == 'update':        # the reservation as it will be stored
+            if (cell, alloc) not in store:
+                return
+            rsrc = dict({k: store[(cell, alloc)][k] for k in ('partition', 'traits')}, **rsrc)
         part = rsrc.get('partition', DEFAULT) if kind == 'create' else rsrc.get('partition')
         tr = rsrc.get('traits', [])
         if not isinstance(part, str) or not isinstance(tr, list) or not all(isinstance(t, str) for t in tr):
@@ -683,7 +687,6 @@ def run_impl(case, pid):
         nonlocal n_acc, n_rej, near_shared
         if not schema_valid:
             return
-        part = rsrc.get('partition', DEFAULT) if kind == 'create' else rsrc.get('partition')
         wf = mon_before['wf']
         accepted = outcome in ('ok', 'exists', 'notfound')
         # -- error kind: a schema-valid request over well-formed stored data is accepted or is
@@ -755,16 +758,26 @@ def run_impl(case, pid):
                 _, rid, rsrc = op
                 slash = '/' in rid
                 alloc, cell = rid.rsplit('/', 1) if slash else (None, None)
-            part = rsrc.get('partition', DEFAULT) if kind == 'create' else rsrc.get('partition')
-            strs_ok = all(_valid_text(rsrc.get(k)) for k in DIMS) and \
-                (part is None or _valid_text(part)) and isinstance(rsrc.get('traits', []), list)
+            # what is checked: the request; for update the reservation as it will be stored (the
+            # stored one updated with the request) -- a missing id fails before any check
+            eff = rsrc
+            if kind == 'update' and slash:
+                if (cell, alloc) in store:
+                    eff = dict({k: copy.deepcopy(store[(cell, alloc)][k])
+                                for k in ('cpu', 'disk', 'memory', 'partition', 'traits')}, **rsrc)
+                else:
+                    eff = None
+            part = None if eff is None else \
+                (eff.get('partition', DEFAULT) if kind == 'create' else eff.get('partition'))
+            strs_ok = eff is not None and all(_valid_text(eff.get(k)) for k in DIMS) and \
+                (part is None or _valid_text(part)) and isinstance(eff.get('traits', []), list)
             mon_before = {'wf': False}
             before = {}
             if slash and strs_ok:
                 mon_before['wf'] = mon.wellformed(cell, part)
-                if mon_before['wf'] and part is not None and mon_vec(rsrc) is not None and \
-                        all(isinstance(t, str) for t in rsrc.get('traits', [])):
-                    mon_before['fits'] = mon.fits(cell, part, alloc, rsrc)
+                if mon_before['wf'] and part is not None and mon_vec(eff) is not None and \
+                        all(isinstance(t, str) for t in eff.get('traits', [])):
+                    mon_before['fits'] = mon.fits(cell, part, alloc, eff)
                 before = mon.exceeded(cell)
             arg = copy.deepcopy(rsrc)
             exc = None
@@ -804,6 +817,9 @@ def run_impl(case, pid):
                 run.op(rq_line(kind, rid, rsrc), obs)
             if slash and strs_ok:
                 monitor(kind, cell, alloc, rsrc, outcome, exc, before, valid, mon_before)
+            elif slash and eff is None and valid and outcome != 'notfound':
+                run.hits.append(fw.Hit(clause='error-kind', call_site=kind,
+                                       detail='update of a missing id %s -> %s: %r' % (rid, outcome, exc)))
     finally:
         context.GLOBAL.admin = saved_admin
     if n_acc:
